@@ -96,11 +96,37 @@ let str_perr = function
 let str_ferr = function
   | FTooFew -> "FTooFew" | FOutOfRange -> "FOutOfRange" | FNotGiven -> "FNotGiven"
   | FUnusedNumbered -> "FUnusedNumbered" | FUnusedNamed -> "FUnusedNamed"
+let rec list_init_seq k f = if k <= 0 then [] else let x = f () in x :: list_init_seq (k - 1) f
+
+let rec fobj () =
+  match next () with
+  | "I" -> FInt (z_of_string (next ()))
+  | "B" -> FBool (next_int () = 1)
+  | "F" -> FFloat
+  | "C" -> FComplex
+  | "S" -> FStr (codes ())
+  | "Y" -> FBytes (codes ())
+  | "N" -> FNoneObj
+  | "U" -> FUnknown
+  | "Q" -> let is_list = next_int () = 1 in let k = next_int () in FSeq (is_list, list_init_seq k fobj)
+  | "D" -> let k = next_int () in
+    FDict (list_init_seq k (fun () ->
+      let key = (match next () with
+                 | "S" -> FKStr (codes ())
+                 | "I" -> FKInt (z_of_string (next ()))
+                 | t -> failwith ("bad fkey " ^ t)) in
+      let v = fobj () in (key, v)))
+  | t -> failwith ("bad fobj " ^ t)
+
+(* F <n> code*n <nargs> FOBJ*nargs <nkw> (<n> code*n FOBJ)*nkw *)
 let format () =
   let t = codes () in
-  let nargs = n_of_int (next_int ()) in
+  let na = next_int () in
+  let pos = list_init_seq na fobj in
   let nkw = next_int () in
-  let kw = List.init nkw (fun _ -> codes ()) in
+  let kwv = list_init_seq nkw (fun () -> let k = codes () in let v = fobj () in (k, v)) in
+  let nargs = n_of_int na in
+  let kw = List.map fst kwv in
   let pa =
     match pa_parse t with
     | None -> "FUEL"
@@ -119,7 +145,15 @@ let format () =
      | PYOk fs -> "pyparse=" ^ str_fields fs ^ " mix=" ^ (if mix_clause fs then "1" else "0")) ^
     " verdict=" ^
     (match py_format_verdict t nargs kw with
-     | VRaises -> "raises" | VFine -> "fine" | VUndecided -> "undecided" | VFuel -> "FUEL") in
+     | VRaises -> "raises" | VFine -> "fine" | VUndecided -> "undecided" | VFuel -> "FUEL") ^
+    (match py_tree t with
+     | TOk items -> let fs = tree_fields items in
+       " nopath=" ^ (if List.for_all tfield_no_path fs then "1" else "0") ^
+       " plain=" ^ (if List.for_all tfield_plain fs then "1" else "0")
+     | _ -> " nopath=? plain=?") ^
+    " full=" ^
+    (match py_format_full t { fa_pos = pos; fa_kw = kwv } with
+     | FVRaises -> "raises" | FVFine -> "fine" | FVUndecided -> "undecided" | FVFuel -> "FUEL") in
   print_endline (pa ^ " " ^ py)
 
 let () =
